@@ -582,6 +582,20 @@ def prof_persist(rng, n, tier):
     """C13 / C16 / C08 / C09 / C05: a persisted version, a batch of modifications, persist again; no cache"""
     out = []
     for i in range(n):
+        if i % 12 == 5:
+            # set-style use: some values are the nil interface (written as null in both node formats)
+            h = H("per%d" % i, rng, cache="none", vt="raw", kind=rng.choice([0, 1, 2]), opts={"nilvals": 1, "callbacks": 0})
+            t = h.new()
+            for j in range(rng.choice([3, 9, 30])):
+                h.ins(t, None, hx(b"null") if rng.random() < 0.6 else None)
+            r = h.mkroot(t)
+            x = h.load(r); h.observe(x)
+            for _ in range(3):
+                h.get(x)
+            h.ins(x)      # (no nil value after the reload: a reloaded null is a RawMessage, which DeepEqual tells from nil)
+            r2 = h.mkroot(x); y = h.load(r2); h.observe(y)
+            out.append(h)
+            continue
         if i % 12 == 11:
             # one wide node: the number of entries (and of links) of a node sits at a varint boundary
             h = H("per%d" % i, rng, cache="none", bf=rng.choice([300, 1000]), kind=rng.choice([0, 1]))
